@@ -1,6 +1,6 @@
 (* C12: trading fees are exact and routed to the right pools.  Statements only. *)
 From MP.Model Require Import Prelude U128 SInt Feed Vamm VammOps Token World Engine Runtime.
-From MP.Proofs Require Import Tactics SIntFacts EngineArith CloseFacts MoreFacts.
+From MP.Proofs Require Import Tactics SIntFacts EngineArith CloseFacts MoreFacts CloseTxFacts OpenTxFacts Scenario.
 
 Theorem C12_fee_amounts : forall v quote toll spread, 0 <= quote ->
   q_calc_fee v quote = Ok (toll, spread) ->
@@ -90,3 +90,37 @@ Theorem C12_partial_liquidation_no_fee : forall w i o w' msgs liq,
   paid_to (e_feepool (ec (w_eng w))) msgs = 0.
 Proof. exact partial_liquidation_reply_no_fee. Qed.
 Print Assumptions C12_partial_liquidation_no_fee.
+
+(* END TO END.  An OpenPosition transaction that opens a new position (cw20 or native; whole message tree;
+   any fault index) raises the insurance fund's balance by exactly floor(notional x spread ratio) and the fee
+   pool's by exactly floor(notional x toll ratio), notional = margin x leverage / D. *)
+Theorem C12_open_new_position_tx_fees : forall f w t v s m l lim funds w' vm,
+  exec_op f w (OEngine t (EOpenPosition v s m l lim) funds) = Ok w' ->
+  find_position (w_eng w) v t = None ->
+  get_vamm w v = Ok vm -> 0 <= m -> 0 <= l -> 0 < e_dec (ec (w_eng w)) ->
+  let ifund := e_ifund (ec (w_eng w)) in let pool := e_feepool (ec (w_eng w)) in
+  ifund <> pool -> ifund <> A_ENGINE -> pool <> A_ENGINE -> t <> ifund -> t <> pool ->
+  let notional := m * l / e_dec (ec (w_eng w)) in
+  bal (w_tok w') ifund = bal (w_tok w) ifund + fee_of vm notional (v_spread (vc vm)) /\
+  bal (w_tok w') pool = bal (w_tok w) pool + fee_of vm notional (v_toll (vc vm)).
+Proof. exact open_new_position_tx_fees. Qed.
+Print Assumptions C12_open_new_position_tx_fees.
+
+(* non-vacuity: in the concrete scenario with fees switched on (toll 0.3%, spread 0.1%) a third trader's
+   OpenPosition succeeds, every premise holds and both pools grow *)
+Definition c12_example : bool :=
+  match scenario with
+  | Ok w0 =>
+      let w := run w0 [OVamm 1 11 (WUpdateConfig (mkVupdate None None (Some 3000) (Some 1000) None None None None None));
+                       OToken 1 (TMint 23 1000000000000); OToken 23 (TIncreaseAllowance 1000000000000)] in
+      let ifund := e_ifund (ec (w_eng w)) in let pool := e_feepool (ec (w_eng w)) in
+      match find_position (w_eng w) 11 23, exec_op (-1) w (OEngine 23 (EOpenPosition 11 Buy 3000000 2000000 0) 0) with
+      | None, Ok w' =>
+          negb (ifund =? pool) && negb (ifund =? A_ENGINE) && negb (pool =? A_ENGINE) && negb (23 =? ifund) && negb (23 =? pool) &&
+          (bal (w_tok w) ifund <? bal (w_tok w') ifund) && (bal (w_tok w) pool <? bal (w_tok w') pool)
+      | _, _ => false
+      end
+  | Err _ => false
+  end.
+Example C12_nonvacuous : c12_example = true.
+Proof. vm_compute. reflexivity. Qed.
